@@ -9,7 +9,7 @@
    single-threaded use. *)
 From Coq Require Import List NArith ZArith Bool Arith Lia.
 Import ListNotations.
-From DV Require Import PendingCall.Pending PendingCall.BlockTime Spec.PendingSpec Proofs.PendingSerial Proofs.PendingLemmas Proofs.PendingRel Proofs.PendingCancel Proofs.PendingFault Proofs.PendingLive Proofs.PendingBlock Proofs.PendingNoFault Proofs.PendingTime Proofs.PendingRefute Proofs.PendingTie.
+From DV Require Import PendingCall.Pending PendingCall.BlockTime PendingCall.Threads Spec.PendingSpec Proofs.PendingSerial Proofs.PendingLemmas Proofs.PendingRel Proofs.PendingCancel Proofs.PendingFault Proofs.PendingLive Proofs.PendingBlock Proofs.PendingNoFault Proofs.PendingTime Proofs.PendingThreads Proofs.PendingRefute Proofs.PendingTie.
 Local Open Scope N_scope.
 
 (* the reply slot of every call is assigned at most once and its notify function runs at most once, in every history *)
@@ -177,6 +177,38 @@ Theorem C17_timeout_lifecycle : forall b h, valid_base b ->
 Proof. exact timeout_lifecycle. Qed.
 Print Assumptions C17_timeout_lifecycle.
 
+(* ---- several threads blocking on calls of one connection: the I/O-path hand-over (PendingCall/Threads.v) ---- *)
+(* For every number of threads, every interleaving of their steps (each thread holds the connection lock between two
+   release points: waiting for the I/O path, sleeping in poll, before its notify function), poll wake-ups and timeouts,
+   peer writes and other threads' non-reading entry points: no thread is ever asleep in poll() while a message carrying
+   its call's serial is in the incoming queue -- a reply that has been read is never slept on. *)
+Theorem C17_no_lost_wakeup : no_lost_wakeup_statement true.
+Proof. exact no_lost_wakeup. Qed.
+Print Assumptions C17_no_lost_wakeup.
+(* ... the I/O path has at most one owner ... *)
+Theorem C17_io_path_exclusive : forall st targets sched, calls_ok st -> forallb step_ok sched = true ->
+  let ts := fst (trun true (tinit st targets) sched) in
+  forall j k tj tk, nth_error (ts_threads ts) j = Some tj -> nth_error (ts_threads ts) k = Some tk ->
+                    holder tj = true -> holder tk = true -> j = k.
+Proof. exact io_path_exclusive. Qed.
+Print Assumptions C17_io_path_exclusive.
+(* ... and a thread that obtains the I/O path while a reply for its call is queued completes the call in its next two
+   steps, with that reply, without polling *)
+Theorem C17_handover_completes : forall ts k th c m q',
+  tinv ts -> fault (ts_base ts) = 0 -> nth_error (ts_threads ts) k = Some th -> th_pc th = PHaveIo ->
+  nth_error (calls (ts_base ts)) (th_call th) = Some c -> c_completed c = false ->
+  find_reply (queue (ts_base ts)) (c_serial c) = Some (m, q') ->
+  let '(ts2, o) := trun true ts [TRun k; TRun k] in
+  pc_of ts2 k = PNotify /\ o = [TObs k (OComplete (th_call th) m)] /\
+  exists c2, nth_error (calls (ts_base ts2)) (th_call th) = Some c2 /\ c_completed c2 = true /\ c_reply c2 = Some m.
+Proof. exact handover_completes. Qed.
+Print Assumptions C17_handover_completes.
+(* the same statement with the checks of do_iteration made BEFORE acquiring the I/O path (the order of seeded defect
+   C17_3) is false: the order of the C code is what makes C17_no_lost_wakeup true *)
+Theorem C17_check_before_acquire_refuted : ~ no_lost_wakeup_statement false.
+Proof. exact seeded_order_refuted. Qed.
+Print Assumptions C17_check_before_acquire_refuted.
+
 (* ---- non-vacuity: the hypotheses above are satisfiable, the conclusions are about real completions ---- *)
 Definition ex_h : list event := [ESend true true; EPlain; ESend false true; EPeerReply PReturn 1 7; EPeerReply PError 0 8; ERead].
 Example ex_nowrap : nowrap1 ex_h. Proof. vm_compute. reflexivity. Qed.
@@ -229,3 +261,8 @@ Proof. vm_compute. repeat split; reflexivity. Qed.
 Example ex_timed_block_gives_up : let r := block_timed (fst (run init [ESend true true])) 0 5 [mkTv 10 0; mkTv 10 4999; mkTv 10 5000] [] in
   t_polls r = [5; 1]%Z /\ t_obs r = [OComplete 0 (mkMsg KNoReply 1 0); ONotify 0].
 Proof. vm_compute. repeat split; reflexivity. Qed.
+Example ex_two_threads_handover :
+  let '(ts, o) := two_threads true w_two_calls 0 1 [PM PReturn (inl 0%nat) 1; PM PReturn (inl 1%nat) 2] in
+  filter (fun x => match x with TPoll _ | TSleep _ => true | _ => false end) o = [TPoll 0] /\
+  map th_pc (ts_threads ts) = [PDone; PDone] /\ map c_completed (calls (ts_base ts)) = [true; true].
+Proof. exact faithful_handover. Qed.
